@@ -34,6 +34,9 @@ CONFIGS = {
     "DEF": ["-p", "minijinja"],
     # the smallest engine
     "MIN": ["-p", "minijinja", "--no-default-features"],
+    # the macro engine without template composition (a size-reduced build some hosts use): cfg-gated twins of the
+    # depth accounting (`any(macros, multi_template)` vs `multi_template`) only differ here
+    "MAC": ["-p", "minijinja", "--no-default-features", "--features", "macros"],
     # MAX without preserve_order: BTreeMap value maps
     "ORD": ["-p", "minijinja", "--features", ",".join(f for f in MJ_MAX if f != "preserve_order")],
 }
